@@ -1,5 +1,6 @@
 import AdeuModel.Lemmas.Engine
 import AdeuModel.Lemmas.Style
+import AdeuModel.Lemmas.InlineMd
 /-
 C16 — inserted text blends in: context formatting inherited, Markdown rendered.
 `insRuns text style suppress` are the runs `track_insert` creates for one line; `style` is the run
@@ -35,14 +36,63 @@ theorem C16_literal (t : Str) (style : Option Run) (sup : Bool) (ht : t ≠ []) 
     (insRuns t style sup).map (fun c => match c with | .run r => r.ch | _ => []) = [[.t t]] :=
   insRuns_literal t style sup ht h
 
+/-- Rendering never loses or invents text: the characters of the runs created for one inserted line are a subsequence of
+the new text, and every character that is not a `*` or `_` is kept, in order - the only characters `_parse_inline_markdown`
+can drop are span delimiters (`findSpan_spec`: a removed pair is `**…**` or `_…_` as the pattern demands). Every new
+text, every style source. -/
+theorem C16_only_markers_removed (t : Str) (style : Option Run) (sup : Bool) :
+    List.Sublist ((insRuns t style sup).flatMap insChildText) t ∧
+    ((insRuns t style sup).flatMap insChildText).filter notMarker = t.filter notMarker := by
+  rw [insRuns_chars]
+  exact inlineSegs_text t
+
 /-- `#` lines become heading-styled paragraphs (`lineParas`), other lines keep the anchor
 paragraph's properties. -/
 theorem C16_heading_style (level : Nat) : headingStyleId level = "Heading".toList ++ natStr level := rfl
+
+theorem dropWhile_hashes (n : Nat) (r : Str) (hr : r.head? ≠ some '#') :
+    (List.replicate n '#' ++ r).dropWhile (· = '#') = r := by
+  induction n with
+  | zero =>
+    cases r with
+    | nil => rfl
+    | cons c rest =>
+      have : c ≠ '#' := fun e => hr (by simp [e])
+      simp [List.dropWhile, this]
+  | succ k ih => simpa [List.replicate_succ, List.dropWhile] using ih
+
+/-- A line `#…# title` (n ≥ 1 hashes, a blank, then the title) is a heading of level n whose text is the title without the
+prefix; `lineParas` gives it the style `Heading n` (C16_heading_style). -/
+theorem C16_heading_line (n : Nat) (title : Str) (hn : 0 < n) :
+    parseMdStyle (List.replicate n '#' ++ ' ' :: title) = (stripStr Trim.pyIsSpace (' ' :: title), some n) := by
+  unfold parseMdStyle
+  have hh : (List.replicate n '#' ++ ' ' :: title).head? = some '#' := by
+    cases n with
+    | zero => omega
+    | succ k => simp [List.replicate_succ]
+  have hd := dropWhile_hashes n (' ' :: title) (by simp)
+  simp only [hh, ↓reduceIte, hd, List.head?_cons, List.length_append, List.length_replicate, List.length_cons]
+  have : n + (title.length + 1) - (title.length + 1) = n := by omega
+  rw [this]
+
+/-- A line that starts with `#` but has no blank behind the hashes (`#1 priority`, `#hashtag`) is not a heading and keeps
+every character. -/
+theorem C16_hash_line_kept (text : Str) (h : (text.dropWhile (· = '#')).head? ≠ some ' ') :
+    parseMdStyle text = (text, none) := by
+  unfold parseMdStyle
+  split
+  · simp only [h, ↓reduceIte]
+  · rfl
+
+example : parseMdStyle "## Scope of work".toList = ("Scope of work".toList, some 2) := by decide
+example : parseMdStyle "#1 priority".toList = ("#1 priority".toList, none) := by decide
 
 /-! Non-vacuity / rendering of spans -/
 example : inlineSegs "[___] fee".toList = [⟨"[___] fee".toList, false, false⟩] := by decide
 example : inlineSegs "snake_case_name".toList = [⟨"snake_case_name".toList, false, false⟩] := by decide
 example : inlineSegs "**bold** and _it_".toList =
     [⟨"bold".toList, true, false⟩, ⟨" and ".toList, false, false⟩, ⟨"it".toList, false, true⟩] := by decide
+
+example : (insRuns "pay **all** fees _now_".toList none false).flatMap insChildText = "pay all fees now".toList := by decide
 
 end Adeu.Props.C16
